@@ -140,9 +140,9 @@ M("C01", "timeout-no-close", "breaking",
   [(P, "GeminiServerProtocol._handle_timeout", "            self.transport.write(response.encode(\"utf-8\"))\n            self.transport.close()\n", "            self.transport.write(response.encode(\"utf-8\"))\n")],
   "_handle_timeout")
 M("C01", "deny-empty-unanswered", "breaking",
-  [(P, "GeminiServerProtocol._handle_middleware_result",
-    "                    self._send_error_response(\n                        StatusCode.TEMPORARY_FAILURE, \"Request rejected\"\n                    )\n", "                    pass\n")],
-  "W5:server.protocol:GeminiServerProtocol._handle_middleware_result:orphan")
+  [(P, "GeminiServerProtocol._send_rejection",
+    "            self._send_error_response(StatusCode.TEMPORARY_FAILURE, \"Request rejected\")\n", "            pass\n")],
+  "orphan")
 M("C01", "callback-narrow-except", "breaking",
   [(P, "GeminiServerProtocol._handle_async_handler_result", "        except Exception as e:", "        except ValueError as e:")],
   "W6:server.protocol:GeminiServerProtocol._handle_async_handler_result:unfunnelled")
@@ -165,3 +165,159 @@ M("C01", "benign-single-write", "benign",
   [(P, SR, "        self.transport.write(header)\n        if body:\n            self.transport.write(body)\n", "        self.transport.write(header + body)\n")])
 M("C01", "benign-status-guard-lt70", "benign",
   [(P, SR, "if not 10 <= status <= 69:", "if status < 10 or status >= 70:")])
+
+# ---------------------------------------------------------------- C04
+MW = "server/middleware.py"
+M("C04", "revert-fix-titan-ungated", "breaking",
+  [(P, "GeminiServerProtocol._process_titan_upload", "        if self.middleware:\n", "        if False and self.middleware:\n")],
+  "M1:server.protocol:GeminiServerProtocol.data_received:ungated-dispatch")
+M("C04", "revert-fix-fail-open", "breaking",
+  [(P, "GeminiServerProtocol._handle_gemini_request",
+    "                self._send_error_response(\n                    StatusCode.TEMPORARY_FAILURE, \"Middleware error\"\n                )\n                return\n", "")],
+  "M1b:server.protocol:GeminiServerProtocol._handle_gemini_request:fail-open")
+M("C04", "route-before-verdict", "breaking",
+  [(P, "GeminiServerProtocol._handle_gemini_request",
+    "                # Return early - callback will handle the rest\n                return\n", "                self._route_request(request, client_ip)\n                return\n")],
+  "M1:")
+M("C04", "invert-allow", "breaking",
+  [(P, "GeminiServerProtocol._handle_middleware_result", "            if not allow:", "            if allow:")],
+  "M1:")
+M("C04", "titan-callback-ignores-verdict", "breaking",
+  [(P, "GeminiServerProtocol._handle_titan_middleware_result", "            if not allow:\n                self._send_rejection(error_response)\n                return\n", "            if not allow:\n                logger.warning('rejected')\n")],
+  "M1:")
+M("C04", "chain-swallows-exception", "breaking",
+  [(MW, "MiddlewareChain.process_request",
+    "            allow, response = await middleware.process_request(\n                request_url, client_ip, client_cert_fingerprint\n            )\n",
+    "            try:\n                allow, response = await middleware.process_request(\n                    request_url, client_ip, client_cert_fingerprint\n                )\n            except Exception:\n                continue\n")],
+  "M2:server.middleware:MiddlewareChain.process_request:swallow")
+M("C04", "chain-skips-first", "breaking",
+  [(MW, "MiddlewareChain.process_request", "for middleware in self.middlewares:", "for middleware in self.middlewares[1:]:")],
+  "M2:server.middleware:MiddlewareChain.process_request:iter")
+M("C04", "chain-ignores-verdict", "breaking",
+  [(MW, "MiddlewareChain.process_request", "            if not allow:\n                return False, response\n", "            if not allow and response:\n                return False, response\n")],
+  "M2:server.middleware:MiddlewareChain.process_request:falsy-verdict-continues")
+M("C04", "chain-generic-rejection", "breaking",
+  [(MW, "MiddlewareChain.process_request", "                return False, response\n", "                return False, \"40 Rejected\\r\\n\"\n")],
+  "M2:server.middleware:MiddlewareChain.process_request:reject-response")
+M("C04", "hostname-as-client-ip", "breaking",
+  [(P, "GeminiServerProtocol._handle_gemini_request", 'client_ip = self.peer_name[0] if self.peer_name else "unknown"', 'client_ip = request.hostname if self.peer_name else "unknown"')],
+  "M3:server.protocol:GeminiServerProtocol._handle_gemini_request:consult-ip")
+M("C04", "fingerprint-dropped", "breaking",
+  [(P, "GeminiServerProtocol._handle_gemini_request", "request.normalized_url, client_ip, client_cert_fingerprint\n", "request.normalized_url, client_ip, request.hostname\n")],
+  "M3:server.protocol:GeminiServerProtocol._handle_gemini_request:consult-fp")
+M("C04", "raw-request-line-to-chain", "breaking",
+  [(P, "GeminiServerProtocol._handle_gemini_request", "request.normalized_url, client_ip, client_cert_fingerprint\n", "url, client_ip, client_cert_fingerprint\n")],
+  "M3:server.protocol:GeminiServerProtocol._handle_gemini_request:consult-url")
+M("C04", "stdlib-backend-without-chain", "breaking",
+  [("server/server.py", "start_server", "            lambda: GeminiServerProtocol(router.route, middleware_chain),\n            config.host,\n            config.port,\n            ssl=ssl_context,", "            lambda: GeminiServerProtocol(router.route),\n            config.host,\n            config.port,\n            ssl=ssl_context,")],
+  "M4:server.server:start_server:backend-divergence")
+M("C04", "wrapper-peername-fake", "breaking",
+  [("server/tls_protocol.py", "TLSTransportWrapper.get_extra_info", '                return self.tls_protocol.transport.get_extra_info("peername")', '                return ("127.0.0.1", 0)')],
+  "M3:server.tls_protocol:TLSTransportWrapper.get_extra_info:wrapper-peername")
+M("C04", "cert-attached-after-connection-made", "breaking",
+  [("server/tls_protocol.py", "TLSServerProtocol._initialize_inner_protocol",
+    "        # Notify inner protocol of connection\n        self.inner_protocol.connection_made(inner_transport)\n", ""),
+   ("server/tls_protocol.py", "TLSServerProtocol._initialize_inner_protocol",
+    "        peer_cert = get_peer_certificate_from_connection(self.tls_conn)\n",
+    "        self.inner_protocol.connection_made(inner_transport)\n        peer_cert = get_peer_certificate_from_connection(self.tls_conn)\n")],
+  "M3:server.tls_protocol:TLSServerProtocol._initialize_inner_protocol:cert-after-connection-made")
+M("C04", "generic-rejection-text", "breaking",
+  [(P, "GeminiServerProtocol._send_rejection", "                rejection = error_response.encode(\"utf-8\")\n", "                rejection = b\"40 Request rejected\\r\\n\"\n")],
+  "M5:")
+M("C04", "benign-inline-rejection-again", "benign",
+  [(P, "GeminiServerProtocol._handle_middleware_result", "                self._send_rejection(error_response)\n",
+    "                if error_response and self.transport and not self.response_sent:\n                    self.response_sent = True\n                    self.transport.write(error_response.encode(\"utf-8\"))\n                    self.transport.close()\n                else:\n                    self._send_rejection(error_response)\n")])
+M("C04", "benign-rename-allow", "benign",
+  [(P, "GeminiServerProtocol._handle_middleware_result", "allow, error_response = task.result()", "admitted, error_response = task.result()"),
+   (P, "GeminiServerProtocol._handle_middleware_result", "if not allow:", "if not admitted:")])
+
+# ---------------------------------------------------------------- C08
+M("C08", "error-exit-falls-through", "breaking",
+  [(P, DR, "                    self._send_error_response(\n                        StatusCode.BAD_REQUEST, \"Invalid UTF-8 encoding\"\n                    )\n                    return\n",
+    "                    self._send_error_response(\n                        StatusCode.BAD_REQUEST, \"Invalid UTF-8 encoding\"\n                    )\n                    url = url_line.decode(\"utf-8\", errors=\"replace\")\n")],
+  "V1:server.protocol:GeminiServerProtocol.data_received:bypass-UTF-8 decode")
+M("C08", "route-on-parse-error", "breaking",
+  [(P, "GeminiServerProtocol._handle_gemini_request",
+    "        except ValueError as e:\n            self._send_error_response(StatusCode.BAD_REQUEST, str(e))\n            return\n",
+    "        except ValueError as e:\n            logger.warning('lenient_parse', error=str(e))\n            request = GeminiRequest(raw_url=url, parsed_url=None)  # type: ignore[arg-type]\n")],
+  "V1:server.protocol:GeminiServerProtocol.data_received:bypass-request parser")
+M("C08", "skip-length-test", "breaking",
+  [(P, DR, "                if len(url_line) + 2 > MAX_REQUEST_SIZE:\n                    self.url_line_received = True\n                    self._send_error_response(\n                        StatusCode.BAD_REQUEST,\n                        \"Request exceeds maximum size (1024 bytes)\",\n                    )\n                    return\n", "")],
+  "V1:server.protocol:GeminiServerProtocol.data_received:bypass-line-length test")
+M("C08", "drop-fragment-check", "breaking",
+  [("utils/url.py", "parse_url", "    if parsed.fragment:\n        raise ValueError(f\"URL must not contain fragment: {url}\")\n", "")],
+  "V2:utils.url:parse_url:accepts:fragment")
+M("C08", "scheme-check-inverted", "breaking",
+  [("utils/url.py", "parse_url", 'if parsed.scheme != "gemini":', 'if parsed.scheme == "gemini":')],
+  "V2:utils.url:parse_url:")
+M("C08", "userinfo-only-password", "breaking",
+  [("utils/url.py", "parse_url", "if parsed.username or parsed.password:", "if parsed.password:")],
+  "V2:utils.url:parse_url:accepts:user name")
+M("C08", "hostname-check-dropped", "breaking",
+  [("utils/url.py", "parse_url", "    if not parsed.hostname:\n        raise ValueError(f\"URL missing hostname: {url}\")\n", "")],
+  "V2:utils.url:parse_url:accepts:missing host")
+M("C08", "port-default-without-read", "breaking",
+  [("utils/url.py", "parse_url", "port = parsed.port if parsed.port is not None else DEFAULT_PORT", "port = DEFAULT_PORT")],
+  "V2:utils.url:parse_url:port-unread")
+M("C08", "titan-negative-size-accepted", "breaking",
+  [("protocol/request.py", "TitanRequest.from_line", "        if size < 0:\n            raise ValueError(f\"Size must be non-negative: {size}\")\n", "")],
+  "V2:protocol.request:TitanRequest.from_line:titan-guard:negative size")
+M("C08", "titan-size-default-zero", "breaking",
+  [("protocol/request.py", "TitanRequest.from_line", "        if \"size\" not in params:\n            raise ValueError(\"Titan URL must contain size parameter\")\n", "        params.setdefault(\"size\", \"0\")\n")],
+  "V2:protocol.request:TitanRequest.from_line:titan-guard:no size parameter")
+M("C08", "titan-bad-size-as-zero", "breaking",
+  [("protocol/request.py", "TitanRequest.from_line", "            raise ValueError(f\"Invalid size parameter: {params['size']}\") from e\n", "            size = 0\n")],
+  "V2:protocol.request:TitanRequest.from_line:titan-guard:integer-size")
+M("C08", "reject-status-50", "breaking",
+  [(P, "GeminiServerProtocol._handle_gemini_request", "self._send_error_response(StatusCode.BAD_REQUEST, str(e))", "self._send_error_response(StatusCode.PERMANENT_FAILURE, str(e))")],
+  "V3:server.protocol:GeminiServerProtocol._handle_gemini_request:reject-status:malformed URL")
+M("C08", "limit-2048-at-one-site", "breaking",
+  [(P, DR, "if len(url_line) + 2 > MAX_REQUEST_SIZE:", "if len(url_line) + 2 > 2 * MAX_REQUEST_SIZE:")],
+  "V4:server.protocol:GeminiServerProtocol.data_received:limit")
+M("C08", "limit-off-by-two", "breaking",
+  [("utils/url.py", "validate_url", 'if len(url.encode("utf-8")) + 2 > MAX_REQUEST_SIZE:', 'if len(url.encode("utf-8")) > MAX_REQUEST_SIZE:')],
+  "V4:utils.url:validate_url:limit")
+M("C08", "uploads-disabled-after-parse", "breaking",
+  [(P, "GeminiServerProtocol._handle_titan_url",
+    "        if not self.upload_handler:\n            self._send_error_response(\n                StatusCode.PERMANENT_FAILURE,\n                \"Titan uploads not supported on this server\",\n            )\n            return\n\n", ""),
+   (P, "GeminiServerProtocol._handle_titan_url",
+    "        # Extract client certificate if present\n",
+    "        if not self.upload_handler:\n            self._send_error_response(\n                StatusCode.PERMANENT_FAILURE,\n                \"Titan uploads not supported on this server\",\n            )\n            return\n\n        # Extract client certificate if present\n")],
+  "V3:server.protocol:GeminiServerProtocol._handle_titan_url:uploads-disabled-order")
+M("C08", "benign-ge-form-of-limit", "benign",
+  [(P, DR, "if len(url_line) + 2 > MAX_REQUEST_SIZE:", "if len(url_line) + 1 >= MAX_REQUEST_SIZE:")])
+M("C08", "benign-scheme-check-first", "benign",
+  [("utils/url.py", "parse_url", "    if not parsed.scheme:\n        raise ValueError(f\"URL missing scheme: {url}\")\n\n", "")])
+
+# ---------------------------------------------------------------- C15
+M("C15", "revert-fix-handshake-deadline", "breaking",
+  [("server/tls_protocol.py", "TLSServerProtocol.connection_made",
+    "            self._handshake_timer = loop.call_later(\n                HANDSHAKE_TIMEOUT, self._handle_handshake_timeout\n            )\n", "            self._handshake_timer = None\n")],
+  "X1:server.tls_protocol:TLSServerProtocol.connection_made:no-deadline")
+M("C15", "handshake-deadline-only-logs", "breaking",
+  [("server/tls_protocol.py", "TLSServerProtocol._handle_handshake_timeout", "            self._close_with_error(\"TLS handshake timeout\")\n", "            logger.warning(\"tls_handshake_slow\")\n")],
+  "X1:server.tls_protocol:TLSServerProtocol._handle_handshake_timeout:deadline-does-not-close")
+M("C15", "cancel-timer-on-titan-line", "breaking",
+  [(P, "GeminiServerProtocol._handle_titan_url",
+    "            # Wait for content bytes\n            self.awaiting_titan_content = True\n",
+    "            # Wait for content bytes\n            self.awaiting_titan_content = True\n            if self.timeout_handle:\n                self.timeout_handle.cancel()\n                self.timeout_handle = None\n")],
+  "X2:server.protocol:GeminiServerProtocol.data_received:orphan")
+M("C15", "no-cancel-before-gemini-dispatch", "breaking",
+  [(P, DR, "                    if self.timeout_handle:\n                        self.timeout_handle.cancel()\n                        self.timeout_handle = None\n                    self._handle_gemini_request(url)\n", "                    self._handle_gemini_request(url)\n")],
+  "X2:server.protocol:GeminiServerProtocol.data_received:timer-at-dispatch")
+M("C15", "timeout-handler-does-nothing-when-waiting", "breaking",
+  [(P, "GeminiServerProtocol._handle_timeout", "            self.response_sent = True\n            self.transport.write(response.encode(\"utf-8\"))\n            self.transport.close()\n", "            logger.warning(\"slow_client\")\n")],
+  "X2:server.protocol:GeminiServerProtocol._handle_timeout:orphan")
+M("C15", "timeout-answers-50", "breaking",
+  [(P, "GeminiServerProtocol._handle_timeout", '"40 Request timeout\\r\\n"', '"50 Request timeout\\r\\n"')],
+  "X3:server.protocol:GeminiServerProtocol._handle_timeout:timeout-status")
+M("C15", "timer-not-armed", "breaking",
+  [(P, "GeminiServerProtocol.connection_made", "            self.timeout_handle = loop.call_later(REQUEST_TIMEOUT, self._handle_timeout)\n", "            self.timeout_handle = None\n")],
+  "X1:server.protocol:GeminiServerProtocol.connection_made:no-deadline")
+M("C15", "infinite-delay", "breaking",
+  [(P, None, "REQUEST_TIMEOUT = 30.0\n", "REQUEST_TIMEOUT = float(\"inf\")\n")],
+  "X4:server.protocol:GeminiServerProtocol.connection_made:delay")
+M("C15", "benign-shorter-timeout", "benign",
+  [(P, None, "REQUEST_TIMEOUT = 30.0\n", "REQUEST_TIMEOUT = 10.0\n")])
+M("C15", "benign-close-directly-in-deadline", "benign",
+  [("server/tls_protocol.py", "TLSServerProtocol._handle_handshake_timeout", "            self._close_with_error(\"TLS handshake timeout\")\n", "            if self.transport:\n                self.transport.close()\n")])
